@@ -870,6 +870,10 @@ class C03(EvalProp):
             cs.append(Case('la%d' % i, path.encode(), [doc], meta={'family': 'long-array-filter'}))
         # one parsed function evaluated more than a thousand times where nothing matches (anything a failing evaluation does
         # not give back is gone after that many calls), then once where something does
+        # a user function whose error is of a type that cannot be compared with ==, failing for several values in one retrieval
+        for i, path in enumerate([b'$[*].ufail()', b'$..a.ufail()', b'$.*.ufail()', b'$[0:].a.ufail()', b'$[?(@.a)].a.ufail().id()', b'$[*].a.id().ufail()']):
+            udoc = ('a', [('o', [(b'a', ('n', float(k)))]) for k in range(1, r.randint(3, 5))])
+            cs.append(Case('uf%d' % i, path, [udoc], gens.FILTER_FUNCS, gens.AGG_FUNCS, False, False, 'eval', meta={'family': 'uncomparable-error'}))
         two = ('o', [(b'a', ('o', [(b'x', ('n', 1.0))])), (b'b', ('o', [(b'y', ('n', 2.0))]))])
         hit = ('o', [(b'a', ('o', [(b'zzz', ('n', 9.0))])), (b'b', ('o', [(b'y', ('n', 2.0))]))])
         for i, (path, d0, d1) in enumerate([(b'$[?(@.zzz)]', two, hit), (b'$.*[?(@.zzz)]', ('a', [two]), ('a', [('o', [(b'p', hit), (b'q', two)])])),
@@ -901,6 +905,36 @@ class C03(EvalProp):
         return f
 
 
+    def extra(self, ctx, res, g, budget_scale):
+        """a source value nested a million levels deep, built in memory, walked by `..` in a process whose goroutine stacks are limited
+        to 64 MB: the retrieval returns (implementation only; no decoder produces such a value and the model would recurse)"""
+        import json
+        raws = []
+        for i, depth in enumerate([300000, 1000000] if ctx.quick else [300000, 1000000, 2000000]):
+            ops = [{'op': 'parse', 'path_hex': hx(p), 'filters': [], 'aggs': [], 'acc': False} for p in [b'$..a', b"$..['a']"]]
+            raws.append(RawCase('deep%d' % i, json.dumps({'id': 'deep%d' % i, 'mode': 'deepdoc', 'ops': ops, 'threads': depth}), meta={'depth': depth}))
+        for raw, g_ in zip(raws, core.run_go(raws, jobs=2, timeout_ms=120000)):
+            res.evaluations += 1
+            if g_.get('DEEP', '').startswith('ok:'):
+                res.nontrivial.add(raw.id)
+                res.dist['deep-document'] += 1
+            else:
+                res.violation('concrete', 'deepdoc|%d' % raw.meta['depth'],
+                              '`$..a` on a value nested %d levels deep (stack limit 64 MB) does not return its one match: %s' % (raw.meta['depth'], str(g_)[:200]),
+                              {'scenario': json.loads(raw.text)}, observed=g_)
+
+    def replay(self, ctx, res, v):
+        if isinstance(v.get('case'), dict) and 'scenario' in v['case']:
+            import json
+            sc = v['case']['scenario']
+            g_ = core.run_go([RawCase(sc['id'], json.dumps(sc))], jobs=1, timeout_ms=120000)[0]
+            print('implementation:', g_)
+            if not g_.get('DEEP', '').startswith('ok:'):
+                res.violation('concrete', 'replay', 'the deep document is not walked', v['case'])
+            return
+        replay_generic(self, ctx, res, v, self.project, self.what)
+
+
 def split_calls(s):
     out, depth, cur = [], 0, ''
     for ch in s:
@@ -924,7 +958,7 @@ def call_fails(call):
     if not m:
         return True
     kind, name, arg = m.groups()
-    if name in ('fail', 'afail', 'relay', 'zfail', 'azfail'):
+    if name in ('fail', 'afail', 'relay', 'zfail', 'azfail', 'ufail'):
         return True
     if kind == 'F' and name in gens.AGG_FUNCS or kind == 'G' and name in gens.FILTER_FUNCS:
         return True             # a name of the other library: always fails
@@ -1579,6 +1613,26 @@ class C05(Prop):
             docs += [sub(r.sample(pool, r.randint(8, len(pool)))) for _ in range(r.randint(0, 2))]
             path = r.choice([b'$.*', b'$[*]', b'$..*', b'$[?(@ >= 0)]', b'$[?(@)]', b"$['a00','k01',*]"][:5])
             base.append(Case('kp%d' % i, path, docs[:8], meta={'family': 'key-pool'}))
+        # a comparison between two paths whose `$` operand is a scalar in one document and a container in the next (whatever a
+        # node decides from the first document it sees must not be kept), and unions of plain indexes over arrays of growing
+        # and shrinking lengths (the positions a subscript selects depend on the array at hand, every time)
+        for i in range(max(10, n // 120)):
+            ys = [('n', 1.0), ('a', [('n', 1.0), ('n', 2.0)]), ('o', [(b'k', ('n', 1.0))]), ('s', b's'), ('b', True), ('z',)]
+
+            def mk(y):
+                return ('o', [(b'y', y), (b'items', ('a', [('o', [(b'x', x), (b'id', ('n', float(j)))]) for j, x in enumerate(ys)]))])
+            docs = [mk(r.choice([ys[0], ys[3], ys[4]]))] + [mk(r.choice(ys)) for _ in range(r.randint(2, 6))]
+            path = r.choice([b'$.items[?(@.x == $.y)].id', b'$.items[?(@.x != $.y)].id', b'$.items[?($.y == @.x)]', b'$.items[?(@.x == $.y || @.id > 4)].id'])
+            base.append(Case('pt%d' % i, path, docs, meta={'family': 'operand-type-history'}))
+        for i in range(max(10, n // 120)):
+            ix = r.sample(range(0, 6), r.randint(2, 4))
+            lens = [r.randint(1, 3)] + [r.randint(1, 8) for _ in range(r.randint(2, 5))]
+            docs = [('a', [('n', float(10 * j + k)) for k in range(ln)]) for j, ln in enumerate(lens)]
+            tpl = r.choice(['$[%s]', '$[%s]', '$..[%s]', '$[%s].id()'])
+            path = (tpl % ','.join(str(k) for k in ix)).encode()
+            if tpl.startswith('$..'):
+                docs = [('a', [d, ('a', [('n', 7.0)])]) for d in docs]
+            base.append(Case('ul%d' % i, path, docs, ['id'] if 'id()' in tpl else [], meta={'family': 'union-length-history'}))
         # re-entrancy: while a call runs, a user function calls the SAME parsed function on another document
         reenter = {}
         for i in range(max(20, n // 25)):
@@ -1881,6 +1935,16 @@ class C07(Prop):
                     node = ('o', [(b'a', ('n', float(lv))), (r.choice([b'b', b'0', b'z']), node)] + ([(b'c', ('a', sib))] if sib else []))
             path = r.choice([b'$..a', b"$..['a']", b'$..[0]', b'$..*', b'$..[*]', b'$..z', b'$..[?(@.a)]', b'$..a..a', b'$..[0]..a'])
             cases.append(Case('deep%d' % i, path, [node, shuffle_doc(r, node)], meta={'perm_idx': [0, 1], 'nkeys': 3, 'family': 'deep-nesting'}))
+        # containers with 33..60 container children (whatever a walker keeps pending at once must not run out): the pre-order of `..`
+        for i in range(max(8, n // 120)):
+            w = r.choice([33, 34, 40, 48, 60])
+            kids = [r.choice([('o', [(b'a', ('n', float(k)))]), ('a', [('n', float(k)), ('o', [(b'a', ('n', float(100 + k)))])]),
+                              ('o', [(b'b', ('a', [('n', float(k))])), (b'a', ('n', float(k)))])]) for k in range(w)]
+            node = ('a', kids) if r.random() < 0.5 else ('o', [(b'k%02d' % k, x) for k, x in enumerate(kids)])
+            if r.random() < 0.4:
+                node = ('o', [(b'w', node), (b'a', ('s', b'top'))])
+            path = r.choice([b'$..a', b'$..[0]', b"$..['a']", b'$..*', b'$..b[0]', b'$..[?(@.a)]'])
+            cases.append(Case('fan%d' % i, path, [node, shuffle_doc(r, node)], meta={'perm_idx': [0, 1], 'nkeys': 3, 'family': 'wide-fan-out'}))
         templates = [b'$.*', b'$..*', b'$[*]', b'$..[*]', b'$[?(@)]', b'$..[?(@)]', b'$.*.*', b'$..a', b"$..['a','b']",
                      b'$[?(@.a)]', b'$..[?(@.a || @.b)]', b'$.*[*]', b'$..*.*', b"$['b','a',*]", b'$[*,*]']
         for i in range(n):
@@ -2566,6 +2630,27 @@ class C09(Prop):
             op = r.choice([b'==', b'!='])
             B = (b'@.x ' + op + b' ' + ref) if r.random() < 0.5 else (ref + b' ' + op + b' @.x')
             fams.append((doc, 'andor', {'A': A, 'B': B, 'and': b'(' + A + b') && (' + B + b')', 'or': b'(' + A + b') || (' + B + b')'}))
+        # A && B / A || B of two plain existence tests, one of them ending in a step that may select several values (wildcard, slice,
+        # union, `..`, a nested filter) and that finds NOTHING for some members (an empty array or object, a scalar, no such member)
+        for i in range(max(40, n // 60)):
+            ms = []
+            for j in range(r.randint(2, 6)):
+                m = [(b'id', ('n', float(j)))]
+                if r.random() < 0.7:
+                    m.append((b'a', ('n', float(10 + j))))
+                bv = r.choice([('a', []), ('a', [('n', 7.0)]), ('a', [('n', 1.0), ('n', 2.0), ('n', 3.0)]), ('o', []), ('o', [(b'c', ('n', 1.0))]),
+                               ('o', [(b'c', ('n', 1.0)), (b'd', ('n', 2.0))]), ('n', 5.0), None])
+                if bv is not None:
+                    m.append((b'b', bv))
+                r.shuffle(m)
+                ms.append(('o', m))
+            body = ('a', ms) if r.random() < 0.7 else ('o', list(zip(r.sample(gens.KEY_POOL, len(ms)), ms)))
+            doc = ('o', [(b'list', body)])
+            A = r.choice([b'@.a', b'@.id', b'@.a', b'@.b'])
+            B = r.choice([b'@.b[*]', b'@.b.*', b'@.b[1:3]', b'@.b..c', b"@.b['c','d']", b'@.b[0,1]', b'@.b[?(@)]', b'@.b[1:]', b'@..c'])
+            if r.random() < 0.4:
+                A, B = B, A
+            fams.append((doc, 'andor', {'A': A, 'B': B, 'and': A + b' && ' + B, 'or': A + b' || ' + B}))
         cases, index = [], []
         for fi, (doc, kind, exprs) in enumerate(fams):
             doc2 = reroll_refs(r, doc)          # a second document for the SAME parsed function
@@ -2934,6 +3019,13 @@ class C12(Prop):
             else:
                 text = '$.w[?(@.b%s%s %s %d)]' % (r.choice(['.*', '[*]', '', '[*,*]', '[*,*,*]']), chain, r.choice(['>=', '==', '<', '!=']), r.randint(0, 4))
             extra.append(Case('fa%d' % i, text.encode(), [doc], sorted(set(fs + ['id', 'twice'])), sorted({a1, a2}), False, False, 'eval', {'family': 'agg-fun-agg', 'nsteps': 4}))
+        # values that are themselves of the library's exported Accessor type (a document assembled from the results of an earlier
+        # accessor-mode retrieval), handed on by functions in last position: like any other value, wrapped once in accessor mode
+        for i in range(max(12, n // 300)):
+            doc = ('o', [(b'h', ('a', [('n', 1.0), ('x', 'accessor'), ('s', b't'), ('x', 'accessor')])), (b'one', ('x', 'accessor'))])
+            text = r.choice(['$.h[1].id()', '$.h[*].id()', '$.one.id()', '$.h.first()', '$.h[1:].first()', '$.h[1:2].arr()', '$.one.id().id()',
+                             '$..one.id()', '$.h[?(@.id())].id()', '$.h[-1].id()'])
+            extra.append(Case('ax%d' % i, text.encode(), [doc], ['id'], ['first', 'arr'], False, False, 'eval', {'family': 'accessor-typed-values', 'nsteps': 3}))
         plain += extra
         plain += load_corpus(self.id, ctx.root) if seed_offset == 0 else []
         for c in plain:
@@ -3050,6 +3142,12 @@ class C13(Prop):
             steps = g.gen_path(doc, 4, 0.15)
             f, a = gens.funcs_used(steps)
             cases.append(Case('l%d' % i, gens.render_path(steps), [doc], f, a, True, False, 'loc'))
+        # members whose name is the empty string (a name like any other), at the top and below, next to array elements
+        for i in range(max(10, n // 300)):
+            inner = ('o', [(b'', ('n', 2.0)), (b'b', ('a', [('n', 3.0), ('o', [(b'', ('n', 4.0))])]))])
+            doc = ('o', [(b'', ('n', 1.0)), (b'a', inner), (b'c', ('a', [('n', 5.0)]))])
+            text = r.choice(["$['']", '$[""]', '$.*', "$..['']", '$[?(@==1)]', "$['','c']", "$.a['']", '$..*', "$.a.b[1]['']", '$.a[*]', "$['c','']"])
+            cases.append(Case('ek%d' % i, text.encode(), [doc], [], [], True, False, 'loc', meta={'family': 'empty-name-members'}))
         # C13_accessor_from_text: the path that spells the location of a node (the driver confirms it is Coq chain_path):
         # exactly one accessor, writing exactly that location
         want_loc = {}
@@ -3436,9 +3534,10 @@ class C15(Prop):
                 cur = [x for kk, x in cur[1] if kk == key][-1]
             if parts is None:
                 continue
-            extra_key = r.choice([b'zz9', b'nope', b'a'])
+            # the failing step's own name may need escapes in dot notation (a dot, a blank, brackets): the error names the step AS WRITTEN
+            extra_key = r.choice([b'zz9', b'nope', b'a', b'a.b', b'k 1', b'a[0]', b'$x', b'q.'])
             style = r.choice("'\".")
-            seg = ('.' + extra_key.decode()) if style == '.' else '[%s%s%s]' % (style, extra_key.decode(), style)
+            seg = ('.' + gens.esc_dot(extra_key).decode('utf-8')) if style == '.' else '[%s%s%s]' % (style, extra_key.decode(), style)
             if cur[0] == 'o' and any(kk == extra_key for kk, _ in cur[1]):
                 continue
             spec2 = spec + [(0 if style == '.' else ord(style), [ord(ch) for ch in extra_key.decode()])]
@@ -4090,6 +4189,17 @@ class C19(Prop):
             for _ in range(r.randint(1, 3)):
                 ops.append((dict(op='retrieve', path_hex=hx(r.choice(p_f)), doc=core.doc_go(doc), mutate=False, cfg_ref=1, allfail=True, **cfga), doc))
             hists.append((ops, True))
+        # tens of thousands of unrelated Parse calls between two long paths that share a prefix (whatever the parser keeps across
+        # calls and tells apart by a counter must survive the counter's wrap-around: 2^16 calls, give or take the harness's own)
+        wdoc = ('o', [(b'aaaaaaaaaaaaaaaaaaaa', ('o', [(b'bcd', ('a', [('n', 10.0), ('n', 20.0), ('n', 30.0)])), (b'b', ('o', [(b'c', ('n', 1.0))])), (b'bbb', ('n', 2.0))]))])
+        nocfg_ = {'filters': [], 'aggs': [], 'acc': False, 'nocfg': True}
+        for burn in ([65535, 65534, 65536, 65533] if ctx.quick else [65535, 65534, 65536, 65533, 65532, 65537, 131071, 131070]):
+            p1, p2 = r.choice([(b'$.aaaaaaaaaaaaaaaaaaaa.bcd[0:2]', b'$.aaaaaaaaaaaaaaaaaaaa.bcd[0,2]'), (b'$.aaaaaaaaaaaaaaaaaaaa.b.c', b'$.aaaaaaaaaaaaaaaaaaaa.bbb'),
+                               (b'$.aaaaaaaaaaaaaaaaaaaa.bcd[0:2]', b'$.aaaaaaaaaaaaaaaaaaaa.bcd[0,2]')])
+            ops = [(dict(op='retrieve', path_hex=hx(p1), doc=core.doc_go(wdoc), mutate=False, **nocfg_), wdoc),
+                   (dict(op='retrieve', path_hex=hx(p2), doc=core.doc_go(wdoc), mutate=False, burn=burn, **nocfg_), wdoc),
+                   (dict(op='retrieve', path_hex=hx(p1), doc=core.doc_go(wdoc), mutate=False, **nocfg_), wdoc)]
+            hists.append((ops, True))
         # cold starts: the history runs in a brand-new process, so its first call is the first the library ever sees
         # (lazily initialised package state, the generated parser's own buffers): the empty path, paths that begin
         # with an escape, a bare name, ... then ordinary calls
@@ -4117,7 +4227,7 @@ class C19(Prop):
                 key = json.dumps([op['path_hex'], op['filters'], op['aggs'], op['acc'], op['nocfg'], core.doc_render(d), bool(op.get('allfail'))])
                 if key not in uniq:
                     cid = 'u%d' % len(uniq)
-                    op1 = dict(op, mutate=False, cfg_ref=0)
+                    op1 = dict(op, mutate=False, cfg_ref=0, burn=0)
                     uniq[key] = (RawCase(cid, hist_json(cid, [op1])),
                                  Case(cid, unhx(op['path_hex']), [d], op['filters'], op['aggs'], op['acc'], op['nocfg']))
         gos = core.run_go(raws)
@@ -4174,7 +4284,7 @@ class C19(Prop):
         g_ = core.run_go([RawCase('r', hist_json('r', ops))])[0]
         print('history :', g_)
         for k, op in enumerate(ops):
-            a = core.run_go([RawCase('a', hist_json('a', [dict(op, mutate=False, cfg_ref=0)]))])[0]
+            a = core.run_go([RawCase('a', hist_json('a', [dict(op, mutate=False, cfg_ref=0, burn=0)]))])[0]
             if a.get('O0') != g_.get('O%d' % k):
                 print('call %d alone: %s' % (k, a.get('O0')))
                 res.violation('concrete', 'replay', 'call %d differs from the same call alone' % k, v['case'])
@@ -4216,6 +4326,15 @@ class C20(EvalProp):
         for c in cs:
             if b'==' in c.path or b'!=' in c.path:
                 c.docs = [scrub(d) for d in c.docs]
+        # empty and nil containers of typed Go slice and map types against each other and against JSON's empty array and object: values
+        # of different types are different values, whatever their reflect kind and however little they hold
+        r = g.r
+        empties = [('x', 'emptyintslice'), ('x', 'nilintslice'), ('x', 'emptystrslice'), ('x', 'emptyintmap'), ('x', 'nilintmap'), ('a', []), ('o', [])]
+        for i in range(max(12, n // 300)):
+            ys = r.sample(empties, r.randint(3, 6))
+            doc = ('o', [(b'want', r.choice(empties)), (b'items', ('a', [('o', [(b'v', y), (b'id', ('n', float(j)))]) for j, y in enumerate(ys)]))])
+            path = r.choice([b'$.items[?(@.v == $.want)].id', b'$.items[?(@.v != $.want)].id', b'$.items[?($.want == @.v)].id', b'$.items[?(@.v == $.items[0].v)].id'])
+            cs.append(Case('emp%d' % i, path, [doc], meta={'family': 'typed-empty-containers', 'nsteps': 3}))
         # the foreign value as the WHOLE document, and one level down: the same treatment at every depth
         for j, kind in enumerate(sorted(core.KINDS)):
             for i, path in enumerate([b'$', b'$.a', b'$.*', b'$..a', b'$[0]', b'$[?(@.a)]', b'$..*', b"$['a','b']", b'$[0:1]', b'$.a.b']):
